@@ -1,6 +1,7 @@
 (* driver for the C16 (velocity regeneration) correspondence runner.
    Encodings: rational "num/den"; list "a,b,c" ("-" = empty); columns "c1;c2;c3";
-   option "N" or the value; engine cp2k|gromacs|lammps|turtle|ase. *)
+   option "N" or the value; engine cp2k|gromacs|lammps|turtle|ase.
+   "file": VelM.modify_file_stream (optional velocity / box entries of the source file). *)
 let engine_of_string = function
   | "cp2k" -> Cp2k | "gromacs" -> Gromacs | "lammps" -> Lammps | "turtle" -> Turtle | "ase" -> Ase
   | s -> failwith ("bad engine " ^ s)
@@ -25,6 +26,13 @@ let handle toks =
   | ["std"; e; zm; ek; mass; pos; vel; box; ids; sg; stream] ->
     string_of_result
       (modify_std_stream (engine_of_string e) (qlist mass) (frame_of pos vel box ids)
+         (opt_of_string q_of_string ek) (opt_of_string bool_of_string_ zm) (qlist sg) (qlist stream))
+  | ["file"; e; special; zm; ek; dflt; mass; pos; velo; boxo; ids; sg; stream] ->
+    (* file-level model: velocities and box of the source FILE are options ("N" = absent) *)
+    string_of_result
+      (modify_file_stream (engine_of_string e) (bool_of_string_ special) (qlist dflt) (qlist mass)
+         { c_pos = cols_of_string pos; c_vel = opt_of_string cols_of_string velo;
+           c_box = opt_of_string qlist boxo; c_ids = list_of_string z_of_string ids }
          (opt_of_string q_of_string ek) (opt_of_string bool_of_string_ zm) (qlist sg) (qlist stream))
   | ["ase"; fx; zm; mass; pos; vel; box; ids; sg; stream] ->
     string_of_result
